@@ -95,6 +95,19 @@ def check(rep, tier):
         except Exception as e:
             rep.violation("crash %s" % type(e).__name__, "Snowflake.run raises %r for %s" % (e, cfg), dict(config=cfg, error=repr(e)))
             continue
+        if ri % 7 == 2 and r["N"] >= 3:
+            # a recording request given as integers that are NOT in ascending order: the stored trajectories are those of the requested vials
+            # (rows in ascending vial order), bit for bit the rows of the full recording
+            req = (r["N"] - 1, 0, r["N"] // 2)
+            try:
+                rs = fr.run(cfg, storeStates=req)
+                idx = sorted(set(req))
+                rep.count("non-ascending-recording-request")
+                if rs["XT"].shape[0] != len(idx) or not (np.array_equal(rs["XT"], r["XT"][idx], equal_nan=True) and np.array_equal(rs["XS"], r["XS"][idx], equal_nan=True)):
+                    rep.violation("recorded-rows-mislabelled", "storeStates=%r on %s: the stored rows are not the trajectories of vials %s (ice would be reported before / after the recorded nucleation of the vial the row is attributed to)"
+                                  % (req, cfg["shape"], idx), dict(config=cfg, storeStates=req))
+            except Exception as e:
+                rep.violation("crash %s" % type(e).__name__, "Snowflake.run with storeStates=%r raises %r" % (req, e), dict(config=cfg, storeStates=req))
         hyp = hypotheses(cfg, r)
         if not hyp["hshelf_nonneg"]:
             # not a property of the configuration: the package clips negative random shelf coefficients to 0 (heat must flow from warm to cold)
